@@ -168,6 +168,18 @@ CLAIMED = {
             'right size/hash.',
             'fs model with buffered writers (data < 8 KiB lost on crash before flush), atomic rename; HTTP semantics and sha256 outside',
             'DESIGN.md C19'),
+    'C20': ('JX', 'Engine J: symbolic execution of the packaged models\' eval metrics and train_loss against the (C14-checked) metric '
+                  'classes instantiated with the DATASET modules\' PAD/BOS/EOS/OOV/VOCAB_SIZE; of cifar100.preprocess_image_tff (real '
+                  'source over a numpy->jax.numpy facade) against tf.image.per_image_standardization of the centre crop. Engine X: CrossHair '
+                  'on the real Shakespeare tokeniser/look-up table over np_lite and on emnist.domain_id with the parsed number symbolic',
+            'Bounded symbolic check: for ALL logits and targets (sequence length 1(2); 90 Shakespeare labels, 7 StackOverflow labels) every '
+            'model metric and the training loss equal the metric built from the dataset\'s ids; for ALL pixel values the eval crop (1x1..2x2 '
+            '(3x3)) equals (x-mean)/max(std, 1/sqrt(N)) of the centre window; the tokeniser output (<=3 snippets of <=2 bytes incl. OOV '
+            'bytes, sequence length 2..4) is the BOS/chars/EOS stream with targets shifted by one, labels < VOCAB_SIZE, tail padding; '
+            'every byte maps to its documented label; domain id = 0 iff 2100 <= n <= 2599 for ALL n in 0..9999.',
+            'PARTIAL: model row-independence (CNN/LSTM with 10^5..10^6 parameters) and the StackOverflow tokeniser (TensorFlow ops) are not '
+            'claimed; training crops only by a concrete enumeration of offsets',
+            'DESIGN.md C20'),
 }
 
 NOT_APPLICABLE = {
